@@ -332,12 +332,20 @@ func checkC17(c c17Case, r *vcore.Rec) *vcore.Failure {
 	})
 	var cleaned []string
 	var cmu sync.Mutex
+	// like galaxy's clean callback the stub finds a container's port mappings only through its port file: called without the file it
+	// has nothing to clean and says so with nil
+	cleanedWithFile := map[string]bool{}
 	cleanPort := func(id string) error {
 		cmu.Lock()
 		cleaned = append(cleaned, id)
 		cmu.Unlock()
 		if c.PortErr {
 			return fmt.Errorf("injected port clean error")
+		}
+		if _, err := os.Stat(filepath.Join(root, "galaxy", "port", id)); err == nil {
+			cmu.Lock()
+			cleanedWithFile[id] = true
+			cmu.Unlock()
 		}
 		return nil
 	}
@@ -392,6 +400,16 @@ func checkC17(c c17Case, r *vcore.Rec) *vcore.Failure {
 			}
 			if !found {
 				return vcore.Failf("c17:ports_not_cleaned", "dead container %s had state files but its port mappings were never cleaned", d.ID)
+			}
+			hadPortFile := false
+			for _, g := range d.StateIn {
+				if g == 2 {
+					hadPortFile = true
+				}
+			}
+			if hadPortFile && !c.PortErr && !cleanedWithFile[d.ID] {
+				return vcore.Failf("c17:ports_not_cleaned", "dead container %s: its port file (the only record of its port mappings) was removed before the "+
+					"clean callback could read it - the mappings stay for ever", d.ID)
 			}
 		}
 	}
